@@ -1,5 +1,6 @@
 """C13 - listener wrapper hands unconsumed connections over intact, exactly once."""
 import json
+import re
 import os
 import subprocess
 
@@ -38,7 +39,17 @@ def listener_pipeline(res, tier, clauses, pid):
             p = subprocess.run([vdrive, "listener-run", "-in", gf, "-out", tr, "-summary", summ, "-seed", str(seed())],
                                stdout=subprocess.PIPE, stderr=ef, text=True, timeout=3000)
         if p.returncode != 0:
-            raise Inconclusive(f"listener-run failed rc={p.returncode}: {p.stdout[-1500:]} " + open(errf).read()[-1500:])
+            errtxt = open(errf).read()
+            first = errtxt.split("\n\ngoroutine ")
+            first_block = first[0] + (first[1] if len(first) > 1 else "")
+            m = re.search(r"^panic: (.*)$", errtxt, re.M)
+            if m and "github.com/mholt/caddy-l4/" in first_block:
+                # a panic in a goroutine of the code under test kills the whole server process
+                site = re.search(r"/(layer4/[\w.]+\.go:\d+)", first_block)
+                res.violation("listener:crash:" + re.sub(r"\W+", "-", m.group(1))[:40],
+                              f"L0 the listener wrapper crashed the process: panic: {m.group(1)} at {site.group(1) if site else '?'}", dict(stderr=errtxt[-3000:]))
+                return
+            raise Inconclusive(f"listener-run failed rc={p.returncode}: {p.stdout[-1500:]} " + errtxt[-1500:])
         s = json.load(open(summ))
         n, bad, st = validate_traces(tmp, tr, "listener_traces.ndjson", "L4ListenerTrace.tla", "L4ListenerTrace.cfg")
         cov["traces_validated_against_impl"] = n
@@ -63,13 +74,14 @@ def add_to(res, tier, clauses, pid):
     sub = Result(pid, tier, res.level)
     listener_pipeline(sub, tier, clauses, pid)
     res.violations += sub.violations
+    runs = sub.coverage.get("runs", {})
     res.coverage["listener_wrapper"] = dict(clauses=list(clauses), traces_validated_against_impl=sub.coverage["traces_validated_against_impl"],
-                                            scenarios=sub.coverage["runs"]["scenarios"], delivered_connections=sub.coverage["runs"]["delivered_connections"])
+                                            scenarios=runs.get("scenarios", 0), delivered_connections=runs.get("delivered_connections", 0))
     res.coverage["traces_validated_against_impl"] = res.coverage.get("traces_validated_against_impl", 0) + sub.coverage["traces_validated_against_impl"]
 
 
 def run(res, tier):
-    listener_pipeline(res, tier, ("L1", "L2", "L3", "L4", "L5", "L6", "L7", "L8"), "C13")
+    listener_pipeline(res, tier, ("L1", "L2", "L3", "L4", "L5", "L6", "L7", "L8", "L9", "L10", "L11"), "C13")
 
 
 def replay(res, path):
